@@ -12,7 +12,7 @@ CONFIG = dict(
           "seeded random pairs biased to value in {n-1,n,n+1}; EveryN on the same grid, all n<=12 x v<=36, random multiples and "
           "non-multiples; OptimumReached on 10 tolerances x 12 best values (incl. none, +inf, 1 ulp above the edge) x 5 optima "
           "plus random edges optimum+eps +-1ulp; ChangeOf over ALL value histories of length <=5 over {5,6,8} for PartialEqChecker "
-          "and DeltaEqChecker thresholds 0,1,2, plus random histories of length <=30 (also next to u32::MAX), and over objective values "
+          "and DeltaEqChecker thresholds 0,1,2,3, plus random histories of length <=30 (also next to u32::MAX), and over objective values "
           "(BestObjectiveValueLens, thresholds 0/0.1/0.15/1/inf and PartialEq: all histories of length <=3 over 8 values incl. +inf, "
           "random longer ones), with re-initialisations (all histories of length <=5 over {observe 5,6,8, re-init} x 3 checkers), "
           "several conditions over different u32 lenses (Iterations, Evaluations, two custom states) in one State evaluated / re-initialised "
@@ -21,39 +21,74 @@ CONFIG = dict(
           "guarded by ChangeOf entered 1..4 times (plain and inside a Scope) with a body that rewrites the observed value; all Boolean formulas "
           "of depth <=2 with up to 3 children per connective over operands a,b,c under all 27 outcome assignments (true/false/error), "
           "all depth-3 formulas with <=2 children under the 8 Boolean assignments plus sampled error assignments (all 27 in the "
-          "thorough tier), every operand occurrence individually tagged and logging its evaluations; RandomChance with a scripted "
-          "generator on words m-1, m, m+1, 0, u64::MAX around m = floor(p*2^64) for p on a grid (0, -0, 5e-324, 2^-64, 2^-63, "
-          "0.1..0.9, 1-2^-53, 1, invalid p) and random p, and 10^5-draw frequency tests with ChaCha12 (5 sigma); real Loop with "
+          "thorough tier), every operand occurrence individually tagged and logging its evaluations; RandomChance — the property fixes the "
+          "probability, not which generator words fire nor how many are drawn, so neither is observed — (a) on held words (every draw of one "
+          "evaluation returns the same scripted word: 0, 1, u64::MAX, 2^63 +-1, random): p = 0 / -0 never fires, p = 1 always fires, an invalid p "
+          "(negative, > 1, NaN, infinite) panics; (b) sweeps of 4096 equidistant words over the whole u64 range (3 offsets) for p on a grid "
+          "(0, 5e-324, 2^-64, 2^-12, 0.001 .. 0.999, 1-2^-53, 1) and random p (also next to 0 and 1): the number firing is p*4096 within 2 "
+          "(K) / 5 sigma + 2 (O); (c) 10^5-draw frequency tests with ChaCha12 on independent seeds for p in {0.5, 0.1, 0.9, 0.01, 0.99, 0.001, "
+          "0.999, 0.25, 0.75, 0, 1} and random p: marginal count and count of disjoint consecutive pairs that both fire (5 sigma); real Loop with "
           "counting condition wrapper and counting body for n in {0,1,2,7,100} and random n, iteration- and evaluation-bounded "
-          "(body adds 1..9 evaluations per pass). A case is non-trivial unless it is a LessThanN grid point with n = 0 or an empty "
+          "(body adds 1..9 evaluations per pass); iteration-bounded loops INSIDE A STATE, built with the real builder "
+          "(while_ / scope_ / do_) and run with Configuration::run: all chains Loop -> (Scope ->) Loop -> (Scope ->) Loop of depth 1..3 "
+          "with bounds 0..3 on every level and every combination of with/without Scope, hand-written shapes (sequential loops, scope at the root, "
+          "ILS-like depth 3, depth 4), seeded random trees of depth <=4 (two thirds well-scoped by construction, one third with loops sharing a "
+          "counter), each run 1..3 times on the SAME State, with and without a pre-existing Iterations value, long flat loops (<=2000) and "
+          "60 x 60 nests; every condition test logs verdict, counter and Progress, every leaf the counter it sees; a real loop guarded by "
+          "iterations(n) & evaluations(m), iterations(n) | evaluations(m) and !(!.. | !..) built with the operators & | ! (n, m on a grid and random, "
+          "step 0..9), logging both counters and both Progress values at every test; the operator forms in the formula cases (all binary "
+          "formulas of depth 2 under all 27 assignments, random depth 3), every operand also logging its init; LessThanN::new / EveryN::new over a "
+          "user-defined u32 state. A case is non-trivial unless it is a LessThanN grid point with n = 0 or an empty "
           "history/formula; distinct = distinct input."),
-    nontrivial=lambda inp: not re.match(r"\(lt [uef] (0|x0000000000000000) ", inp) and "(vals)" not in inp and len(inp) > 10,
+    nontrivial=lambda inp: not re.match(r"\(lt [uefo] (0|x0000000000000000) ", inp) and "(vals)" not in inp and len(inp) > 10,
     trusted_base=[
-        "rand 0.8.8 Bernoulli::new / sample (p_int = (p * 2^64) as u64, ALWAYS_TRUE for p = 1, one u64 per sample) — modelled "
-        "from the vendored source and checked with scripted words on both sides of the threshold",
+        "RandomChance's verdict is a function of p and of uniformly distributed generator output; WHICH outputs fire is not pinned (any "
+        "relabelling of the 2^64 words is legal, theorem randomChance_prob_any_mapping) — that floor(p*2^64) of them fire is evidenced by the "
+        "sweep (4096 equidistant held words, within 2) and the frequency tests (statistical, 5 sigma), not proved about the code",
+        "rand's ChaCha12 generator delivers uniformly distributed words (frequency tests)",
         "State registry access (insert / set_value / try_borrow_value_mut) behaves as a typed map (C01/C02)",
         "u32 -> f64 conversion and IEEE division for the progress value (the driver uses native doubles)"],
-    assumptions=["SplitMix64-seeded generator", "the loop body leaves the loop counter alone (Iterations) or adds a fixed step (Evaluations)",
+    assumptions=["SplitMix64-seeded case generator", "RandomChance draws from state.random_mut() only (a held-word generator is substituted through Random::with_rng)", "the loop body leaves the loop counter alone (Iterations) or adds a fixed step (Evaluations)",
                  "counters stay below 2^32 (u32 overflow is not modelled)",
-                 "nested iteration-bounded loops without a Scope share the one Iterations counter (documented by mahf); the loop theorems are about a counter only this loop advances",
+                 "loops that are not the only loop on their registry level (nested without a Scope — documented by mahf — or one after the other in "
+                 "the same block) share one Iterations counter; the exact-count theorems are stated for well-scoped trees (every loop the only one on its "
+                 "level); for the others the model is tied by K, the less-than-n clause is checked at every test, and the sharing is recorded as theorems "
+                 "unscoped_nest_shares_counter / sequential_loops_share_counter",
                  "scopes / Block::init lifecycle of ChangeOf are modelled and checked by K/O; the independence theorem is stated for one registry level"],
 )
 CONFIG.update(
     level_text=("Lean 4 theorems: LessThanN is true iff value < n and writes value/n; a Loop guarded by LessThanN over the iteration "
                 "counter makes exactly n passes, n+1 tests, ends with counter n and (exact arithmetic, n>=1) progress 1, for every n; "
-                "with a body adding step per pass it makes the least p with p*step >= n; EveryN = (n | value) for every n incl. 0 (only multiple of 0 is 0); "
+                "with a body adding step per pass it makes the least p with p*step >= n; on the registry chain (Loop::init, Loop::execute, "
+                "Scope::execute, LessThanN::init/evaluate, Configuration::run modelled per registry level): for EVERY tree in which each loop is the only "
+                "loop on its registry level (any depth of Loop -> Scope -> Loop) and EVERY state the run starts from (whatever counters the state or the "
+                "enclosing scopes hold), the run produces exactly the state-free specified log — each entry of a loop bounded by n tests at 0..n with "
+                "verdicts true x n, false, progress k/n at test k, its body once after each true test seeing counter k — leaves the enclosing registries "
+                "untouched (nested_loops_exactly_n, scoped_loop_exactly_m, loop_log_counts), and k runs on the same State give the k specified logs "
+                "(rerun_exactly_n); a loop guarded by a composite of iterations(n) and evaluations(m) makes exactly the first pass count at which the "
+                "Boolean combination is false, writing BOTH progress values at every test (loop_composite_passes; & stops at the first bound reached, "
+                "| runs until both are reached); EveryN = (n | value) for every n incl. 0 (only multiple of 0 is 0); "
                 "OptimumReached iff a best value exists and |best - optimum| <= eps, under the explicit hypothesis that the known optimum is a "
                 "lower bound of the best value (the code tests best <= optimum + eps; below optimum - eps it answers true: optimumReached_below, "
                 "outside the property's domain, not flagged); ChangeOf "
                 "over every history fires at k iff k = 0 or the value differs (by the checker) from the value last reported, for both "
                 "checkers; after every (re-)init it behaves like a fresh condition (first evaluation fires); several conditions whose Previous "
                 "key (lens type) is not shared follow their own histories under arbitrary interleaving; And/Or/Not compute the Boolean combination and evaluate every operand exactly once in order (no short-circuit), "
-                "an operand error aborts after a prefix; RandomChance fires for exactly floor(p*2^64) of the 2^64 words, always for p = 1. "
-                "Tied to /repo by running the real conditions, the real Loop and rand's gen_bool on generated cases and diffing against "
+                "an operand error aborts after a prefix; RandomChance: under the threshold test applied after ANY bijective relabelling of the words exactly "
+                "floor(p*2^64) of the 2^64 words fire (gen_bool's lower end and the upper end are instances), always for p = 1, and a sweep of N equidistant "
+                "words counts floor(m/D) or floor(m/D)+1 of them. "
+                "Tied to /repo by running the real conditions, the real Loop / Scope / Configuration::run (through the real builder), the operator "
+                "impls & | ! and rand's gen_bool on generated cases and diffing against "
                 "the compiled model (K) and the specification-side predicates (O)."),
-    level_note=("Trusted: Lean kernel; rand 0.8.8 word-to-bool mapping as modelled (checked on scripted words); the State registry; "
+    level_note=("Trusted: Lean kernel; the State registry; that RandomChance decides by a measure-floor(p*2^64)/2^64 set of generator words (the mapping itself "
+                "is deliberately NOT pinned: a rewrite that fires on other words or draws a different number of words is not flagged; the probability is "
+                "tied by the equidistant sweep, the marginal and the pair frequency tests — statistical evidence, false-alarm probability about 1e-5 per run; "
+                "the sweep bound is proved for a threshold test on the lower end, for other interval tests it follows by symmetry, not by a theorem); "
                 "native double arithmetic for the progress value. Theorems about progress = 1 and OptimumReached are in exact (ordered "
                 "field) arithmetic; the float side is checked by K/O only. Observation (not a violation of the stated property): with "
-                "n = 0 LessThanN reports progress 0/0 = NaN. Known findings: two ChangeOf over the same lens type on one registry level share their memory; ChangeOf + DeltaEqChecker<SingleObjective> "
+                "n = 0 LessThanN reports progress 0/0 = NaN. Observation (outside the domain mahf documents, modelled and K-checked, proved as "
+                "sequential_loops_share_counter): two loops one after the other in the same block share Iterations, so after a loop bounded by 5 a loop "
+                "bounded by 3 makes no pass. init propagation of And/Or/Not is compared by K (as a multiset) and shows in O through the composite-guarded "
+                "loops. Known findings: two ChangeOf over the same lens type on one registry level share their memory; ChangeOf + DeltaEqChecker<SingleObjective> "
                 "fires on every evaluation while the value stays +inf (inf - inf = NaN). (EveryN with n = 0 was repaired in /repo c00d550.)"),
 )
